@@ -35,6 +35,8 @@ pub mod keys;
 pub mod register;
 pub mod reader;
 pub mod vic;
+#[cfg(vicut_verif)]
+pub mod verif;
 #[cfg(test)]
 pub mod tests;
 
@@ -758,6 +760,8 @@ fn execute(args: &Opts, input: String, filename: Option<PathBuf>) -> Result<Vec<
 	let fields: Vec<(String,String)> = vec![];
 	let fmt_lines: Vec<Vec<(String,String)>> = vec![];
 
+	#[cfg(vicut_verif)]
+	verif::unit_probe(&input, &filename);
 	let mut vicut = ViCut::new(input, 0)?;
 	let basename = filename.clone()
 		.map(|s| s.file_name().unwrap_or_default().to_string_lossy().to_string())
@@ -1708,6 +1712,8 @@ fn main_script() {
 	};
 
 
+	#[cfg(vicut_verif)]
+	verif::dump_opts(&opts);
 	init_logger(opts.trace);
 
 	if opts.no_input {
@@ -1728,6 +1734,9 @@ fn main_script() {
 fn main() {
 	//#[cfg(all(test,debug_assertions))]
 	//do_test_stuff();
+
+	#[cfg(vicut_verif)]
+	if verif::entry() { return }
 
 	print_help_or_version();
 
@@ -1777,6 +1786,8 @@ fn main() {
 		}
 	};
 
+	#[cfg(vicut_verif)]
+	verif::dump_opts(&opts);
 	init_logger(opts.trace);
 
 	if opts.no_input {
